@@ -153,6 +153,11 @@ fn do_action(this: &Node, act: Act, target: u8) {
         Act::ClearSlot0 => {
             put(&this.s0, None);
         }
+        Act::ResurrectIntoSelf => {
+            if let Some(c) = crate::cc::verif_proofs::clone_from_registry(id) {
+                put(&this.s1, Some(c));
+            }
+        }
     }
 }
 
